@@ -779,3 +779,14 @@ func init() {
 	mutant("handshake-reads-an-empty-record", "client-lifecycle-shape", "conn.go", "			st.CopyTo(&c.serverS)\n", "")
 	mutant("second-close-panics", "client-lifecycle-shape", "conn.go", "	if !atomic.CompareAndSwapUint64(&c.closed, 0, 1) {\n		return false, io.EOF\n	}\n", "	atomic.StoreUint64(&c.closed, 1)\n")
 }
+
+func init() {
+	mutant("settings-frame-goes-out-empty", "serialize-essentials", "settings.go", "		st.Encode()\n\n		fr.setPayload(st.rawSettings)", "		st.Encode()")
+	mutant("settings-ack-keeps-a-payload", "serialize-essentials", "settings.go", "			fr.Flags().Add(FlagAck))\n\n		fr.payload = fr.payload[:0]", "			fr.Flags().Add(FlagAck))")
+	mutant("set-payload-keeps-old-octets", "serialize-essentials", "frameHeader.go", "	f.payload = append(f.payload[:0], payload...)\n}", "	f.payload = append(f.payload, payload...)\n}")
+	mutant("set-body-forgets-the-type", "serialize-essentials", "frameHeader.go", "	f.kind = fr.Type()\n	f.fr = fr", "	f.fr = fr")
+	mutant("priority-section-not-marked", "serialize-essentials", "headers.go", "		h.priority = true\n", "")
+	mutant("padding-flag-without-padding", "serialize-essentials", "headers.go", "		h.rawHeaders = http2utils.AddPadding(h.rawHeaders)\n", "")
+	mutant("headers-copy-loses-the-block", "settings-copy-complete", "headers.go", "	h2.rawHeaders = append(h2.rawHeaders[:0], h.rawHeaders...)\n", "")
+	mutant("headers-copy-loses-end-stream", "settings-copy-complete", "headers.go", "	h2.endStream = h.endStream\n", "")
+}
